@@ -309,201 +309,4 @@ theorem union_decode (types offs : List Int) (afs : ArrUFields) (cols : List (St
     rw [getD_eq_getElem offs i (-1) hio, slot_map_ok c.2 _ hoc, getD_eq_getElem c.2 _ .null hoc]
     simp only [hio, ho, and_self, if_true, bind, Except.bind, pure, Except.pure]
 
-/-! ### the assembled recursion -/
-
-theorem Faithful_list {p large fm v offs el} (h : Faithful (.list p large fm v offs el)) : Faithful el := by
-  simpa [Faithful] using h
-theorem Faithful_fixedSizeList {p fm n len v cur el} (h : Faithful (.fixedSizeList p fm n len v cur el)) : Faithful el := by
-  simpa [Faithful] using h
-theorem Faithful_map {p mm v offs ks vs} (h : Faithful (.map p mm v offs ks vs)) : Faithful ks ∧ Faithful vs := by
-  simpa [Faithful] using h
-theorem Faithful_struct {p len v fs cached next seen} (h : Faithful (.struct p len v fs cached next seen)) : FaithfulL fs := by
-  simpa [Faithful] using h
-theorem Faithful_union {p fs types offs cur} (h : Faithful (.union p fs types offs cur)) : FaithfulL fs := by
-  simpa [Faithful] using h
-theorem Faithful_dictionary {p idx vals index} (h : Faithful (.dictionary p idx vals index)) :
-    Faithful idx ∧ Faithful vals ∧ ∀ k ∈ dec idx, k = .null ∨ ∃ j : Nat, k = .int j ∧ j < index.length := by
-  simpa [Faithful] using h
-theorem Faithful_fixedSizeBinary {p n len v buf cur} (h : Faithful (.fixedSizeBinary p n len v buf cur)) : n = 0 → len = 0 := by
-  simpa [Faithful] using h
-
-mutual
-/-- **the finished array means exactly what the builder state holds** -/
-theorem finish_decode (ext : Ext) : ∀ (b : B) (a : Arr), WFB b → Faithful b → finish ext b = .ok a →
-    decodeAll a = (dec b).map .ok
-  | .null _ len, a, _, _, h => by
-    simp only [finish] at h; cases h
-    simp [decodeAll, dec]
-  | .unknownVariant _, a, _, _, h => by
-    simp only [finish] at h; cases h
-    simp [decodeAll, dec]
-  | .leaf _ k v vals, a, hw, _, h => by
-    simp only [finish] at h; cases h
-    simp only [dec]
-    exact finishLeaf_decode k v vals (WFB_leaf hw)
-  | .bytes _ ty v offs data, a, hw, _, h => by
-    simp only [finish] at h; cases h
-    obtain ⟨ho, hv⟩ := WFB_bytes hw
-    simp only [dec]
-    exact bytes_decode ty v offs data ho hv
-  | .bytesView _ ty v views buf, a, hw, _, h => by
-    simp only [finish] at h; cases h
-    obtain ⟨hv, hd⟩ := WFB_bytesView hw
-    simp only [dec]
-    exact bytesView_decode ty v views buf hv hd
-  | .fixedSizeBinary _ n len v buf _, a, hw, hf, h => by
-    simp only [finish] at h
-    split at h
-    · cases h
-    · cases h
-      obtain ⟨hv, hb⟩ := WFB_fixedSizeBinary hw
-      simp only [dec]
-      exact fixedSizeBinary_decode n len v buf hv hb (Faithful_fixedSizeBinary hf)
-  | .list _ large fm v offs el, a, hw, hf, h => by
-    obtain ⟨ho, hv, hwe⟩ := WFB_list hw
-    simp only [finish, bind, Except.bind] at h
-    cases he : finish ext el with
-    | error e => rw [he] at h; cases h
-    | ok ela =>
-      rw [he] at h; cases h
-      have ih := finish_decode ext el ela hwe (Faithful_list hf) he
-      simp only [dec]
-      exact list_decode large v offs fm ela (dec el) ih ho hv
-  | .fixedSizeList _ fm n len v _ el, a, hw, hf, h => by
-    obtain ⟨hv, hx, hwe⟩ := WFB_fixedSizeList hw
-    simp only [finish] at h
-    split at h
-    · cases h
-    · simp only [bind, Except.bind] at h
-      cases he : finish ext el with
-      | error e => rw [he] at h; cases h
-      | ok ela =>
-        rw [he] at h; cases h
-        have ih := finish_decode ext el ela hwe (Faithful_fixedSizeList hf) he
-        simp only [dec]
-        exact fixedSizeList_decode len n v fm ela (dec el) ih hx hv
-  | .map _ mm v offs ks vs, a, hw, hf, h => by
-    obtain ⟨ho, hlen, hv, hwk, hwv⟩ := WFB_map hw
-    simp only [finish, bind, Except.bind] at h
-    cases hek : finish ext ks with
-    | error e => rw [hek] at h; cases h
-    | ok ka =>
-      rw [hek] at h
-      cases hev : finish ext vs with
-      | error e => rw [hev] at h; cases h
-      | ok va =>
-        rw [hev] at h; cases h
-        have ihk := finish_decode ext ks ka hwk (Faithful_map hf).1 hek
-        have ihv := finish_decode ext vs va hwv (Faithful_map hf).2 hev
-        simp only [dec]
-        exact map_decode v offs mm ka va (dec ks) (dec vs) ihk ihv ho hlen hv
-  | .struct _ len v fs _ _ _, a, hw, hf, h => by
-    obtain ⟨hv, hl⟩ := WFB_struct hw
-    simp only [finish, bind, Except.bind] at h
-    cases he : finishFields ext fs with
-    | error e => rw [he] at h; cases h
-    | ok afs =>
-      rw [he] at h; cases h
-      have ih := finishFields_decode ext fs afs (WFL_WFBs fs len hl) (Faithful_struct hf) he
-      simp only [dec]
-      exact struct_decode len v afs (decCols fs) ih (WFL_len fs len hl) hv
-  | .dictionary _ idx vals index, a, hw, hf, h => by
-    obtain ⟨hwi, hwv, hlen⟩ := WFB_dictionary hw
-    obtain ⟨hfi, hfv, hkeys⟩ := Faithful_dictionary hf
-    simp only [finish, bind, Except.bind] at h
-    cases hei : finish ext idx with
-    | error e => rw [hei] at h; cases h
-    | ok ka =>
-      rw [hei] at h
-      cases hev : finish ext vals with
-      | error e => rw [hev] at h; cases h
-      | ok va =>
-        rw [hev] at h
-        dsimp only at h
-        have ihk := finish_decode ext idx ka hwi hfi hei
-        have ihv := finish_decode ext vals va hwv hfv hev
-        simp only [dec]
-        split at h
-        · -- placeholder branch: the index is empty, so no key designates a value
-          rename_i hc
-          have hempty : index.length = 0 := by
-            simp only [Bool.and_eq_true] at hc
-            have := hc.2
-            cases index with
-            | nil => rfl
-            | cons _ _ => simp at this
-          split at h
-          · cases h
-          · cases h
-            exact dictionary_decode ka _ (dec idx) (dec vals) index.length ihk (by intro j hj; omega) hkeys
-        · cases h
-          refine dictionary_decode ka va (dec idx) (dec vals) index.length ihk ?_ hkeys
-          intro j hj
-          rw [ihv, slot_map_ok _ j (by omega), getD_eq_getElem _ j _ (by omega)]
-  | .union _ fs types offs cur, a, hw, hf, h => by
-    obtain ⟨hlen, hwu, hr⟩ := WFB_union hw
-    simp only [finish, bind, Except.bind] at h
-    cases he : finishUFields ext fs 0 with
-    | error e => rw [he] at h; cases h
-    | ok afs =>
-      rw [he] at h; cases h
-      obtain ⟨hids, hcols⟩ := finishUFields_decode ext fs 0 afs (WFU_WFBs fs cur hwu) (Faithful_union hf) he
-      simp only [dec]
-      refine union_decode types offs afs (decCols fs) ?_ hcols hlen ?_
-      · rw [hids, decCols_length]; simp
-      · intro i t o ht ho
-        obtain ⟨h0, h1, c, hc, hlt⟩ := hr i t o ht ho
-        exact ⟨h0, h1, _, decCols_get? fs _ c hc, hlt⟩
-theorem finishFields_decode (ext : Ext) : ∀ (fs : BL) (afs : ArrFields), WFBs fs → FaithfulL fs →
-    finishFields ext fs = .ok afs → decodeFields afs = (decCols fs).map fun c => (c.1, c.2.map .ok)
-  | .nil, afs, _, _, h => by
-    simp only [finishFields] at h; cases h
-    simp [decodeFields, decCols]
-  | .cons b m rest, afs, hw, hf, h => by
-    simp only [WFBs] at hw
-    simp only [FaithfulL] at hf
-    simp only [finishFields, bind, Except.bind] at h
-    cases hb : finish ext b with
-    | error e => rw [hb] at h; cases h
-    | ok a =>
-      rw [hb] at h
-      cases hr : finishFields ext rest with
-      | error e => rw [hr] at h; cases h
-      | ok ar =>
-        rw [hr] at h; cases h
-        simp only [decodeFields, decCols, List.map_cons, finish_decode ext b a hw.1 hf.1 hb,
-          finishFields_decode ext rest ar hw.2 hf.2 hr]
-theorem finishUFields_decode (ext : Ext) : ∀ (fs : BL) (k : Nat) (afs : ArrUFields), WFBs fs → FaithfulL fs →
-    finishUFields ext fs k = .ok afs →
-    (decodeUFields afs).map (·.1) = (List.range fs.length).map (fun i => ((k + i : Nat) : Int)) ∧
-    (decodeUFields afs).map (·.2) = (decCols fs).map fun c => c.2.map .ok
-  | .nil, k, afs, _, _, h => by
-    simp only [finishUFields] at h; cases h
-    simp [decodeUFields, decCols, BL.length]
-  | .cons b m rest, k, afs, hw, hf, h => by
-    simp only [WFBs] at hw
-    simp only [FaithfulL] at hf
-    simp only [finishUFields] at h
-    split at h
-    · cases h
-    · simp only [bind, Except.bind] at h
-      cases hb : finish ext b with
-      | error e => rw [hb] at h; cases h
-      | ok a =>
-        rw [hb] at h
-        cases hr : finishUFields ext rest (k + 1) with
-        | error e => rw [hr] at h; cases h
-        | ok ar =>
-          rw [hr] at h; cases h
-          obtain ⟨h1, h2⟩ := finishUFields_decode ext rest (k + 1) ar hw.2 hf.2 hr
-          refine ⟨?_, ?_⟩
-          · simp only [decodeUFields, List.map_cons, BL.length, h1, List.range_succ_eq_map, List.map_map]
-            congr 1
-            apply List.map_congr_left
-            intro i _
-            simp only [Function.comp]
-            congr 1; omega
-          · simp only [decodeUFields, decCols, List.map_cons, h2, finish_decode ext b a hw.1 hf.1 hb]
-end
-
 end SaModel.Lemmas.C03
